@@ -4,6 +4,9 @@ OPS = {'NONE': 0, 'INSERT': 1, 'INSERT_PTR': 2, 'INSERT_CREF': 3, 'GET': 4, 'IND
        'REMOVE_INDEX': 9, 'RENAME': 10, 'RENAME_CREF': 11, 'MERGE_COPY': 12, 'MERGE_MOVE': 13, 'RESERVE': 14, 'RESIZE': 15, 'EXPECT': 16,
        'COMPRESS': 17, 'CLEAR': 18, 'SORT_ASC': 19, 'SORT_DESC': 20, 'COPY_CTOR': 21, 'MOVE_CTOR': 22, 'COPY_ASSIGN': 23, 'MOVE_ASSIGN': 24,
        'RESET': 25}
+INSERTING = ('INSERT', 'INSERT_PTR', 'INSERT_CREF', 'GET', 'INDEX_KEY', 'INDEX_MOVE')
+TWO = ('MERGE_COPY', 'MERGE_MOVE', 'COPY_ASSIGN', 'MOVE_ASSIGN')
+ALLOC = '_ZN6Qentem6MemoryL8AllocateIcEEPT_j'      # Memory::Allocate<char>(SizeT), kept out of line by the harness
 
 def pow2(n):
     n += n & 1
@@ -11,35 +14,72 @@ def pow2(n):
     while p < n: p <<= 1
     return p
 
-def tq(op, K, CAP, K2=0, CAP2=2, ARG=0, POST=0, HLIST=0, timeout=300, capmax=None, backend='sat', OBS=15):
-    """one table query; capmax = largest capacity any table can reach (bounds the storage / bucket loops)"""
-    if capmax is None:
-        capmax = max(pow2(max(CAP, 1)), 2)
-        # K inserts (+1 by the operation, +1 by POST) double the capacity whenever size == capacity
-        n = K + 2
-        while capmax < n: capmax *= 2
-    S = capmax + 1
-    L = K + K2 + 2
-    b = {'build': max(K, K2) + 1, 'm_find|m_remove_at': L + 1, 'ref_cmp|IsEqual|IsLess|IsGreater': 3, 'Hash': 2,
-         'find': K + 3, 'scan|ActualSize|resize|copyTable|generateHash|Dispose|operator\\+=|Sort': S, 'SetToZero': 4 * capmax + 1,
-         'h_op': L + 1}   # h_op last: it also matches the C function every inlined loop lives in
-    name = 'table/%s%s/K%d/cap%d' % ('hlist/' if HLIST else '', op, K, CAP)
-    d = {'OP': OPS[op], 'K': K, 'K2': K2, 'CAP': CAP, 'CAP2': CAP2, 'ARG': ARG, 'POST': POST, 'HLIST': HLIST, 'OBS': OBS}
-    if OBS != 15: name += '/obs%d' % OBS
-    if K2: name += '/K2_%d/cap2_%d' % (K2, CAP2)
+def chain(c0, n):
+    """capacities a table constructed with capacity c0 can take during n inserts (doubling when full)"""
+    s = set(); c = pow2(c0) if c0 else 0
+    if c: s.add(c)
+    elif n >= 1: c = 2; s.add(c)
+    while c and c < n: c *= 2; s.add(c)
+    return s
+
+CLS = {'G': 1, 'D': 2, 'R': 3}     # step classes: Grow (insert a new key), Duplicate (insert an existing key), Remove (an existing key)
+
+def simulate(pat, cap0):
+    """(Size, Capacity) after each construction step, and the final live count; None if the pattern is impossible"""
+    size = 0; live = 0; cap = pow2(cap0) if cap0 else 0; tr = []
+    for c in pat:
+        if c in 'DR' and live == 0: return None
+        if c in 'GD' and size == cap:          # Insert() expands a full table before it looks the key up; resize() drops tombstones
+            cap = (cap or 1) * 2; size = live
+        if c == 'G': size += 1; live += 1
+        if c == 'R': live -= 1
+        tr.append((size, cap))
+    return tr, size, cap, live
+
+def vec(xs): return '{' + ','.join(str(x) for x in list(xs) + [0]) + '}'
+
+def capset(op, size, cap, live, size2, cap2, ARG, POST):
+    s = {cap} if cap else set()
+    if op in INSERTING and size == cap: s.add((cap or 1) * 2)
+    if op in TWO and cap2: s.add(cap2)
+    if op in ('MERGE_COPY', 'MERGE_MOVE') and size + size2 > cap: s.add(pow2(size + size2))
+    if op in ('RESERVE', 'RESIZE') and ARG: s.add(pow2(ARG))
+    if op == 'EXPECT' and size + ARG > cap: s.add(pow2(size + ARG))
+    if op == 'COMPRESS': s |= {pow2(x) for x in range(1, size)}            # resize(ActualSize()): the one symbolic size
+    if op in ('COPY_CTOR', 'COPY_ASSIGN') and size: s.add(pow2(size))
+    if POST: s |= {2} | {2 * c for c in s}
+    return s
+
+def tq(op, pat, CAP, pat2='', CAP2=2, ARG=0, POST=0, HLIST=0, OBS=15, timeout=300, backend='sat'):
+    """one table query: construction steps pat at initial capacity CAP, then operation op, then the observer groups in OBS"""
+    if op not in TWO: pat2 = ''
+    tr, size, cap, live = simulate(pat, CAP)
+    tr2, size2, cap2, live2 = simulate(pat2, CAP2)
+    K, K2 = len(pat), len(pat2)
+    cs = capset(op, size, cap, live, size2, cap2, ARG, POST)
+    capmax = max(cs) if cs else 2
+    E = max(size + size2, size if op not in INSERTING else (live if size == cap else size) + 1) + 1 + POST   # most storage slots in use
+    S = E + 1
+    b = {'m_find|m_remove_at': K + K2 + 3, 'ref_cmp|IsEqual|IsLess|IsGreater': 3, 'Hash': 2,
+         'find|generateHash|scan|ActualSize|resize|copyTable|Dispose|operator\\+=|Sort': S, 'SetToZero': 4 * capmax + 1,
+         'h_op': K + K2 + 3}   # h_op last: it is also the C function every inlined loop lives in
+    name = 'table/%s%s/%s/cap%d' % ('hlist/' if HLIST else '', op, pat or '-', CAP)
+    if op in TWO: name += '/%s/cap%d' % (pat2 or '-', CAP2)
     if op in ('RESERVE', 'RESIZE', 'EXPECT'): name += '/arg%d' % ARG
     if POST: name += '/post'
-    return Query(name, 'C13_table.cpp', 'h_op', d, bounds=b, default_unwind=S, timeout=timeout, mem_gb=8, backend=backend)
+    if OBS != 15: name += '/obs%d' % OBS
+    d = {'OP': OPS[op], 'K': K, 'PATV': vec(CLS[c] for c in pat), 'SZV': vec(x[0] for x in tr), 'CPV': vec(x[1] for x in tr),
+         'K2': K2, 'PAT2V': vec(CLS[c] for c in pat2), 'SZ2V': vec(x[0] for x in tr2), 'CP2V': vec(x[1] for x in tr2),
+         'CAP': CAP, 'CAP2': CAP2, 'ARG': ARG, 'POST': POST, 'HLIST': HLIST, 'OBS': OBS, 'CAPSET': sum(cs)}
+    return Query(name, 'C13_table.cpp', 'h_op', d, bounds=b, default_unwind=S, rec_bounds={'Sort': S}, default_rec=S,
+                 stubs={ALLOC: 'c13_alloc'}, cflags=['-Dprivate=public', '-Dprotected=public'], timeout=timeout, mem_gb=8, backend=backend)
 
 def queries(tier):
     qs = []
-    qs.append(tq('NONE', 2, 2))
-    for o in (0,1,2,4,8): qs.append(tq('NONE', 2, 2, OBS=o))
-    for o in (0,1,2,4,8): qs.append(tq('NONE', 3, 2, OBS=o))
-    for o in (0,1,2,4,8): qs.append(tq('NONE', 3, 4, OBS=o))
-    qs.append(tq('NONE', 3, 2))
-    qs.append(tq('INSERT', 2, 2))
-    qs.append(tq('INSERT', 3, 2))
-    qs.append(tq('SORT_ASC', 3, 2))
-    qs.append(tq('MERGE_COPY', 2, 2, K2=2))
+    for pat in ('GG', 'GR', 'GGR'):
+        for op in OPS:
+            if op in ('RESERVE', 'RESIZE', 'EXPECT'):
+                for a in (0, 1, 3): qs.append(tq(op, pat, 2, ARG=a))
+            elif op in TWO: qs.append(tq(op, pat, 2, 'GG', 2))
+            else: qs.append(tq(op, pat, 2))
     return qs
